@@ -1426,7 +1426,10 @@ let histunf_case (input : string) (obs0 : string) : verdict =
              | Some d when starts_with impl "R ok" && d <> "0,0,0,0,0,0,0,0,0" ->
                  ("C17", "unfolder stacks not idle after a complete document: " ^ d) :: oracle
              | _ -> oracle in
+           (* the key cache must be transparent: with it enabled nothing may differ from the model, which ignores it *)
+           let cache_on = match words (List.hd segs) with _ :: c :: _ -> (try int_of_string c >= 0 with _ -> false) | _ -> false in
            let model = if risky_float evs && has_int_kind t && impl <> "PANIC" && impl <> "HANG" then impl else model in
+           let oracle = if cache_on && impl <> model then ("C20", "with the key cache enabled the unfolder's result differs: " ^ impl) :: oracle else oracle in
            { model = (match depth with Some d -> model ^ " D " ^ d | None -> model); oracle }
        | _ -> failwith "histunf: doc")
   | _ -> failwith "histunf: bad input"
